@@ -62,9 +62,17 @@ def cases(tier, seed):
     N2 = rs("j/n", [["string", "s"], ["varint", "n"], ["float", "f"], ["boolean", "b"]], ["'x'", "2**70", "0.25", "True"])
     N3 = rs("j/n", [["string", "s"], ["varint", "n"], ["float", "f"], ["boolean", "b"]], ["'5'", "5", "5.0", "False"])
     shapes = {"A": A, "A2": A2, "B": B, "N1": N1, "N2": N2, "N3": N3}
-    for k in (1, 2, 3):
+    for k in ((1, 2, 3, 4) if tier == "thorough" else (1, 2, 3)):
         for seq in itertools.product(shapes, repeat=k):
             yield {"kind": "seq", "t": "seq", "shape": list(seq), "records": [shapes[s] for s in seq]}
+    if tier == "thorough":
+        # every (type, value) of the alphabets next to every atom
+        for t in JTYPES:
+            for v in alphabet(t, seed):
+                if not small(v) or not is_posix_path_spec(t, v) or (t.startswith("uint") and v == "True"):
+                    continue
+                for (t2, v2) in atoms:
+                    yield {"kind": "pair", "t": t + "," + t2, "records": [rs("j/pair", [[t, "a"], [t2, "b"]], [v, v2])]}
 
 
 def split_docs(text, indent):
